@@ -128,6 +128,18 @@ def malform(value, how, pairs):
 
 def generate(rng):
     cfg = sample_config(rng, n_range=(4, 14), k_range=(2, 4), max_iter_range=(1, 3), allow_callable=False, p_big=0.12)
+    if rng.random() < 0.06:
+        # swarm: realistic sizes (hundreds of samples, mini-batches of 13-40 rows) with hub samples in several pairs
+        cfg["n"] = rng.randint(100, 300)
+        cfg["d"] = min(cfg["d"], 3)
+        cfg["params"]["max_iter"] = 1
+        if FAMILIES[cfg["family"]]["batched"]:
+            cfg["params"]["batch_size"] = rng.randint(13, 40)
+        if cfg["params"].get("groups"):
+            cfg["params"].pop("groups")
+        if cfg["params"].get("feature_mask"):
+            cfg["params"].pop("feature_mask")
+        cfg["huge"] = True
     case = gen_case(rng, cfg["n"], True)
     if rng.random() < 0.25:
         # validation only, with large non-contiguous indices: "whatever the sample indices are"
@@ -233,6 +245,9 @@ def execute(record):
 
             def outer_cg(Xb, y_pred, gradient):
                 ids = list(h.cur_ids)
+                if any(i < 0 for i in ids):
+                    res.probe("batches_with_undecidable_duplicates")     # identical rows, batch not a slice of the permutation
+                    return outer_inner(Xb, y_pred, gradient)
                 rec_idx = getattr(model._batchify, "indices", None)
                 if rec_idx is None or list(rec_idx) != ids:
                     res.violate("C14:indices", {"recorded": None if rec_idx is None else [int(v) for v in rec_idx], "true": ids})
